@@ -214,7 +214,7 @@ class Loader(yaml.SafeLoader):
                 node, expected_type)
         except SeasoningError as e:
             raise RecognitionError(
-                    '{}\n{}'.format(node.start_mark, e.args[0]))
+                    '{}\n{}'.format(node.start_mark, e))
 
         if len(recognized_types) != 1:
             raise RecognitionError(format_rec_error(result))
